@@ -20,6 +20,15 @@ CORPUS = [
     "badd D:0000000000000000 I:1", "div INF:1 NAN", "pow INF:-1 NAN", "mul INF:1 INF:-1", "add INF:1 INF:-1",
     "mul I:0 INF:1", "div I:5 INF:1", "div D:4000000000000000 INF:-1", "sub INF:1 INF:1",
 ]
+# conversions of exact operands at the edges of the double range (mpz_get_d / mpq_get_d: truncation,
+# overflow to infinity, underflow to +0.0 for either sign, subnormals)
+EDGE_EXACT = ["I:%d" % (2 ** 1024), "I:%d" % (2 ** 1024 - 1), "I:%d" % -(2 ** 1100), "I:%d" % (2 ** 1023 + 2 ** 970),
+              "R:1/%d" % (2 ** 1074), "R:-1/%d" % (2 ** 1075), "R:-3/%d" % (2 ** 1080), "R:%d/3" % (2 ** 1025),
+              "R:-%d/7" % (2 ** 1030), "R:-1/10", "R:%d/%d" % (2 ** 600 + 1, 2 ** 600 - 1)]
+EDGE_DBL = ["D:8000000000000000", "D:0000000000000000", "D:0000000000000001", "D:800fffffffffffff", "D:7fefffffffffffff",
+            "D:3ff0000000000000", "D:fff0000000000000", "CD:8000000000000000,7fd0000000000001"]
+CORPUS += ["%s %s %s" % (o, a, b) for o in ("add", "sub", "mul", "div", "badd") for x in EDGE_EXACT for y in EDGE_DBL
+           for (a, b) in ((x, y), (y, x))]
 
 
 def extra_values(rng, n):
